@@ -82,11 +82,12 @@ def prog_delete_orphan(ex, sw, st, idx):
     unreferenced then; what it is NOW is decided by the code under the locks)"""
     h = sw.sym_hash(st, f"t{idx}_hash")
     from iomodel import P
-    os_ = VStruct("OrphanStats", [VVec([VSym(h, "H")]), VVec([]), VVec([]), VVec([]), VVec([]), VInt(0, "usize"), VOpaque("duration"),
-                                  VStruct("Arc", [VOpaque("alias-of-world")])])
+    from structs import mk, fset
+    os_ = mk(ex, st, "OrphanStats", orphaned_blobs=VVec([VSym(h, "H")]), invalid_files=VVec([]), missing_blobs=VVec([]), corrupted_blobs=VVec([]),
+             staging_files=VVec([]), total_blobs=VInt(0, "usize"), scan_duration=VOpaque("duration"), cas_inner=VStruct("Arc", [VOpaque("alias-of-world")]))
     cell = st.alloc(os_)
     # the Arc<CasInner> inside OrphanStats aliases the world's CasInner: point it at the shared cell
-    os_.fields[7] = VStruct("ArcAlias", [sw.cas_ref])
+    fset(ex, os_, "OrphanStats", "cas_inner", VStruct("ArcAlias", [sw.cas_ref]))
     return ("delete_orphan", find_fn(ex, "::delete_orphan", "orphan::"), [VRef(cell), VRef(st.alloc(VSym(h, "H")))],
             dict(kind="delete_orphan", hash=h))
 
